@@ -289,18 +289,27 @@ fn worker() -> &'static std::sync::Mutex<std::sync::mpsc::Sender<Job>> {
 }
 
 pub fn call_guarded<F: Fl>(a: &MultiPolygon<F>, b: &MultiPolygon<F>, op: Operation, px: char, py: char, budget: u64, secs: u64) -> (Outcome, Option<MultiPolygon<F>>) {
+    let (o, r, _, _) = call_guarded_alias(a, b, false, op, px, py, budget, secs);
+    (o, r)
+}
+
+/// like `call_guarded`; with `alias` the SAME object is handed over as both operands
+/// (`a.union(&a)`: both references point at one buffer). Also returns the digests of the two
+/// operand objects the library actually saw, taken after the call (operands-untouched clause).
+#[allow(clippy::too_many_arguments)]
+pub fn call_guarded_alias<F: Fl>(a: &MultiPolygon<F>, b: &MultiPolygon<F>, alias: bool, op: Operation, px: char, py: char, budget: u64, secs: u64) -> (Outcome, Option<MultiPolygon<F>>, String, String) {
     let (a2, b2) = (a.clone(), b.clone());
     let (tx, rx) = std::sync::mpsc::channel();
     let job: Job = Box::new(move || {
-        let r = call(&a2, &b2, op, px, py, budget);
-        let _ = tx.send(r);
+        let (o, r) = if alias { call(&a2, &a2, op, px, py, budget) } else { call(&a2, &b2, op, px, py, budget) };
+        let _ = tx.send((o, r, digest(&a2), digest(if alias { &a2 } else { &b2 })));
     });
     if worker().lock().unwrap().send(job).is_err() {
-        return (Outcome { outcome: "panic".into(), msg: "worker thread gone".into(), popped: 0 }, None);
+        return (Outcome { outcome: "panic".into(), msg: "worker thread gone".into(), popped: 0 }, None, String::new(), String::new());
     }
     match rx.recv_timeout(std::time::Duration::from_secs(secs)) {
         Ok(r) => r,
-        Err(_) => (Outcome { outcome: "timeout".into(), msg: format!("no return after {} s", secs), popped: 0 }, None),
+        Err(_) => (Outcome { outcome: "timeout".into(), msg: format!("no return after {} s", secs), popped: 0 }, None, digest(a), digest(b)),
     }
 }
 
